@@ -869,6 +869,9 @@ impl<'a> Tr<'a> {
         match e {
             Expr::Path(p) => {
                 let n = toks(p);
+                if let Some((c, _)) = self.lookup(&n) {
+                    return Ok(c); // an error value bound by a pattern (`Err(e) => Err(e)`)
+                }
                 self.t.ctor.get(&n).cloned().ok_or(format!("unknown error constructor {}", n))
             }
             Expr::Call(c) => {
